@@ -92,7 +92,7 @@ def main(tier):
     # the block phase: Blocks_line_invariance / _crlf / _cr / _final_newline / _nul (Props/Blocks.v) carry the
     # line-splitter theorems through process_line to the block tree; the model they talk about is tied here
     from checks import layerc
-    layerc.blocks(c, tier, 0.3 if quick else 0.15)
+    layerc.blocks(c, tier, 0.3 if quick else 0.15, proofs=not quick)   # quick: the whole-parser forms Parse_crlf / _cr / _final_newline / _nul (Props/ParseMore.v) are the obligations
     # the whole pipeline up to the tree: Parse_line_invariance / Parse_crlf / Parse_cr / Parse_final_newline / Parse_nul
     # (Props/Parse.v) about Model/Parse.v parse_document_model, tied end to end to parse_document here
     layerc.whole(c, tier, 0.25 if quick else 0.15, more=True)
